@@ -14,6 +14,7 @@ import (
 	"pgregory.net/rapid"
 
 	"github.com/skycoin/skycoin/src/cipher"
+	"github.com/skycoin/skycoin/src/cipher/bip44"
 	"github.com/skycoin/skycoin/src/cipher/crypto"
 	"github.com/skycoin/skycoin/src/wallet"
 	"github.com/skycoin/skycoin/src/wallet/bip44wallet"
@@ -98,7 +99,7 @@ func TestC19_Service(t *testing.T) {
 		model := map[string]*minfo{} // loaded wallets by id
 		unloaded := map[string]bool{}
 		var hist []string
-		nameN := 0
+		nameN, keyN := 0, 0
 		failures, crypt, faulted := 0, 0, 0
 		dupAfterUnload := false
 		seeds := []string{"seed-A", "seed-B", "seed-C", "seed-D"}
@@ -279,6 +280,10 @@ func TestC19_Service(t *testing.T) {
 					opts.Type = wallet.WalletTypeBip44
 					opts.Seed = mnemonicN(seedIdx)
 					opts.SeedPassphrase = []string{"", "pp"}[rapid.IntRange(0, 1).Draw(t, "pp")]
+					if rapid.IntRange(0, 3).Draw(t, "other_coin_path") == 2 {
+						ct := bip44.CoinTypeBitcoin // a wallet on another bip44 coin path than the service's default
+						opts.Bip44Coin = &ct
+					}
 				case kColl:
 					opts.Type = wallet.WalletTypeCollection
 				case kXpub:
@@ -333,9 +338,39 @@ func TestC19_Service(t *testing.T) {
 				}
 				pw := pickPW(t, right)
 				n := rapid.IntRange(0, 3).Draw(t, "n")
+				opts := []wallet.Option{wallet.OptionGenerateN(uint64(n))}
+				mi := model[id]
+				var newKeys []string
+				if mi != nil && mi.kind == kColl {
+					// a collection wallet grows by the private keys it is given
+					var keys []cipher.SecKey
+					for i := 0; i < n; i++ {
+						keyN++
+						_, sec, e := cipher.GenerateDeterministicKeyPair([]byte(fmt.Sprintf("c19-collection-key-%d", keyN)))
+						if e != nil {
+							t.Fatal(e)
+						}
+						keys = append(keys, sec)
+						newKeys = append(newKeys, sec.Hex())
+					}
+					opts = []wallet.Option{wallet.OptionCollectionPrivateKeys(keys)}
+				}
 				fd, disarm := arm(t, id)
-				_, err := s.NewAddresses(id, pw, wallet.OptionGenerateN(uint64(n)))
+				_, err := s.NewAddresses(id, pw, opts...)
 				disarm()
+				if err == nil && mi != nil && mi.pw != "" && mi.kind != kBip && string(pw) != mi.pw {
+					t.Fatalf("NewAddresses on the encrypted %s wallet %s succeeded with the password %q (the wallet's password is %q)\n history:\n  %s", mi.kind, id, pw, mi.pw, strings.Join(hist, "\n  "))
+				}
+				if err == nil && mi != nil && mi.pw != "" {
+					// secrets added to an encrypted wallet are encrypted with it: they never reach the file in the clear
+					if fb, rerr := os.ReadFile(filepath.Join(dir, id)); rerr == nil {
+						for _, k := range newKeys {
+							if strings.Contains(string(fb), k) {
+								t.Fatalf("the file of the encrypted wallet %s contains the secret key %s that was just added\n history:\n  %s", id, k, strings.Join(hist, "\n  "))
+							}
+						}
+					}
+				}
 				invariant(fmt.Sprintf("new_addresses(%s,%d,pw=%q)%s", id, n, pw, fd), err, bd, bm)
 			},
 			"scan": func(t *rapid.T) {
